@@ -550,4 +550,71 @@ theorem mod_negative_differs :
   · simp [cBin, CV.isFloating, CV.ctype, CT.isFloating, CV.toI]
   · simp [pyBin, PV.isFloat, PV.toI]
 
+/-! ## an operand of an unsigned C++ type in the implementation's text (`evalX`, the oracle's reading of `std::size_t`) -/
+
+/-- **The extended reading is conservative.** On text with no unsigned operand `evalX` is `evalC`: everything proved
+about the model's emitted expressions under `evalC` is what the oracle computes for them. -/
+theorem evalX_conservative (env : Env N) (e : CE) :
+    evalX (fun _ => false) env e = (evalC env e).map XV.cv := by
+  induction e with
+  | leaf t s i => simp [evalX, evalC]
+  | ilit n => simp [evalX, evalC]
+  | blit b => simp [evalX, evalC]
+  | bin op l r ihl ihr =>
+    simp only [evalX, evalC, ihl, ihr]
+    cases evalC env l <;> cases evalC env r <;> simp [xBin]
+  | cast t e ih =>
+    simp only [evalX, evalC, ih]
+    cases evalC env e <;> simp [xConvert]
+  | pow l r ihl ihr =>
+    simp only [evalX, evalC, ihl, ihr]
+    cases evalC env l <;> cases evalC env r <;> simp [XV.asCV]
+  | un op e ih =>
+    simp only [evalX, evalC, ih]
+    cases evalC env e <;> simp [xUn]
+
+/-- … for the value stored in a column and for the conditional alike -/
+theorem storeX_conservative (env : Env N) (ty : CT) (e : CE) :
+    storeX (fun _ => false) env ty e = (evalC env e).map (convert ty) := by
+  simp only [storeX, evalX_conservative]
+  cases evalC env e <;> simp [xConvert]
+
+theorem evalCondX_conservative (env : Env N) (o : CondOut) :
+    evalCondX (fun _ => false) env o = evalCondC env o := by
+  have store : ∀ (ty : CT) (r : Option (CV N)),
+      (match r.map XV.cv with | none => none | some v => some (xConvert ty v)) =
+      (match r with | none => none | some v => some (convert ty v)) := by
+    intro ty r; cases r <;> rfl
+  simp only [evalCondX, evalCondC, evalX_conservative]
+  cases evalC env o.test.ce with
+  | none => rfl
+  | some t => exact store _ _
+
+/-- **A count taken from an unsigned expression is an integer count again once it is converted to `int`.**
+`static_cast<int>(c->size())` — or storing the size in an `int` variable — has the value of the model's `int`
+operand for every count below 2^31: that is the form in which a size may replace a counting loop. -/
+theorem size_cast_int (uns : Nat → Bool) (env : Env N) (t : CT) (s : String) (i : Nat) (hu : uns i = true)
+    (h0 : 0 ≤ (env i).i) (h1 : (env i).i < 2147483648) :
+    evalX uns env (.cast .int (.leaf t s i)) = some (.cv (.int (env i).i)) := by
+  have hw : wrapI32 (wrapU (env i).i) = (env i).i := by
+    unfold wrapI32 wrapU two64
+    omega
+  simp only [evalX, hu, if_true, xConvert, hw]
+
+/-- **Left unconverted it is not.** With three elements, `n - 5` computed on the `std::size_t` is
+18446744073709551614 (so `(n - 5) / 2` and `(n - 5) * 0.5` are astronomically large where Python has −1.0), and
+`n > -1` is *false* (−1 is converted to 2^64 − 1) where Python's comparison is true — whatever type the operand
+was declared with.  The oracle therefore types such an operand by the C++ expression it is read from. -/
+theorem unsigned_count_differs (env : Env N) (t : CT) (h : (env 11).i = 3) :
+    evalX (· == 11) env (.bin "-" (.leaf t "c->size()" 11) (.ilit 5)) = some (.uns 18446744073709551614) ∧
+    evalX (· == 11) env (.bin ">" (.leaf t "c->size()" 11) (.un "-" (.ilit 1))) = some (.cv (.bool false)) ∧
+    evalPy true env (.cmp .gt (.leaf .int "n" 11) (.un .usub (.int 1))) = some (.bool true) := by
+  refine ⟨?_, ?_, ?_⟩
+  · simp [evalX, h, xBin, XV.isFloating, XV.toU, uBin, wrapU, two64, CV.toI, CV.isFloating, CV.ctype, CT.isFloating]
+  · simp [evalX, h, xBin, xUn, cUn, XV.isFloating, XV.toU, uBin, wrapU, two64, CV.toI, CV.isFloating, CV.ctype, CT.isFloating]
+  · simp [evalPy, leafVal, CV.toPy, pyUn, pyCmp, PV.isFloat, PV.toI, h]
+
+example : wrapI32 18446744073709551614 = -2 := by decide
+example : wrapU (-1) = 18446744073709551615 := by decide
+
 end FaxVerif.C13
